@@ -879,7 +879,9 @@ func verifyHash256(quote *pb.QuoteV4) error {
 	qeAuthData := qeReportCertificationData.GetQeAuthData().GetData()
 	attestKey := quote.GetSignedData().GetEcdsaAttestationKey()
 
-	concatOfAttestKeyandQeAuthData := append(attestKey, qeAuthData...)
+	concatOfAttestKeyandQeAuthData := make([]byte, 0, len(attestKey)+len(qeAuthData))
+	concatOfAttestKeyandQeAuthData = append(concatOfAttestKeyandQeAuthData, attestKey...)
+	concatOfAttestKeyandQeAuthData = append(concatOfAttestKeyandQeAuthData, qeAuthData...)
 	var hashedMessage []byte
 	hashedConcatOfAttestKeyandQeAuthData := sha256.Sum256(concatOfAttestKeyandQeAuthData)
 	hashedMessage = hashedConcatOfAttestKeyandQeAuthData[:]
